@@ -89,6 +89,7 @@ def run(rep, tier):
         c12.check_comparators(rep_, prog)
         from . import c07
         c07.r07k(rep_, prog)
+        c07.r07t(rep_, prog, only_files=('lex_dijkstra', 'sptrees', 'signed_dijkstra', 'cycles.hpp'))
         search.check_combine_types(rep_, prog)
         from . import c16
         c16.shared(rep_, prog)
@@ -99,6 +100,7 @@ def run(rep, tier):
         rep.rule(r_, d_, floor=1)
     rep.rule('R02j', 'the saturating sum of the searches is applied in the distance type (no floating -> integral truncation of weights)', floor=4)
     rep.rule('R07k', 'numeric_limits<T>::infinity() only for floating-point T (0 for integral weight types)', floor=0)
+    rep.rule('R07t', 'sorted-range algorithms in the tree labels see sorted ranges (inconsistent trees make the isometric variant emit an empty cycle)', floor=1)
     run_rules(rep, tier, RULES, DOCS, extra=extra)
     rep.rule('R01e', 'parity propagation is an exclusive-or with "edge is signed" (trees, signed search, candidate test)', floor=3)
     search_positive(rep, ('R01e',))
